@@ -23,9 +23,11 @@ PROPS = {
     ),
     'C05': dict(
         title='Functions, scopes and pronouns',
-        verus=['env', 'exec_flow', 'exec_glue'], kani=[],
+        verus=['env', 'call', 'exec_flow', 'exec_glue'], kani=[],
         technique=V + ': environment.rs scope stack / innermost-first lookup / pronoun referent against a Seq<Map> view '
-                      '(SymTable abstract), scope push/pop per loop iteration and branch in exec_stmt.rs',
+                      '(SymTable abstract), the call protocol of ProduceVal::visit_function_call (arity before arguments, arguments left to '
+                      'right once each, by-value binding, fresh executor, pop, first return value), scope push/pop per loop '
+                      'iteration and branch in exec_stmt.rs',
     ),
     'C06': dict(
         title='Arrays are independent values with queue and dictionary behaviour',
